@@ -39,7 +39,7 @@ func genDupBlob(c *fw.Case, sz sizes) []byte {
 }
 
 func runC06(c *fw.Case) {
-	if desyncBin() != "" && c.Chance(1, procRate(100), "c06.proc") {
+	if desyncBin() != "" && c.ChanceAdded(1, procRate(100), "c06.proc") {
 		runC06Proc(c)
 		return
 	}
